@@ -294,6 +294,12 @@ Theorem C03_divergence_mesh_discrete : forall (X : nat -> R * R) k F1 f1x f1y l 
             - rsum (map (int_tri' (fun x => f1x x + f2y x)) (mesh_of X conns)))
         <= C * eps_q + L * (1 + eps_q) * eps_s.
 Proof. exact divergence_mesh_discrete. Qed.
+(* the nodal field handed to func on an edge: a polynomial field of degree <= p sampled at the exact edge nodes is
+   reproduced at the edge quadrature points up to C * eps *)
+Theorem C03_edge_interpolation : forall k u ux uy A B p, PolyG k u ux uy -> (k <= p)%nat ->
+  exists C, 0 <= C /\ forall eps nodes s N dN, RefIds1 p eps nodes s N dN ->
+    Rabs (rdot N (map (fun sg => u (seg A B sg)) nodes) - u (seg A B s)) <= C * eps.
+Proof. exact edge_interp_exact. Qed.
 Example C03_nonvacuous_edge :
   Gauss1dExact 1 0 [1 / 2] [1] /\ Forall2 (fun s N => exists dN, RefIds1 1 0 [0; 1] s N dN) [1 / 2] [[1 / 2; 1 / 2]] /\
   ((0, 0) : R * R) <> (1, 0).
@@ -337,6 +343,16 @@ Theorem C03_mesh_axisymmetric : forall p d k nodes pts Ns ws f fx fy (mesh : lis
             (combine (combine mesh Ps) Ms)).
 Proof. exact lift_mesh_axisymmetric. Qed.
 
+Theorem C03_mesh_axisymmetric_exact : forall p d k nodes pts Ns ws f fx fy (mesh : list tri),
+  (1 <= p)%nat -> (k + 1 <= d)%nat -> PolyG k f fx fy ->
+  TriQuadExact d 0 pts ws ->
+  Forall2 (fun q N => exists Gx Gy, RefIds p 0 nodes q N Gx Gy) pts Ns ->
+  exists Ps : list poly, length Ps = length mesh /\
+    Forall2 (fun t P => pdeg_le d P /\ forall xi, fst (tri_X t xi) * f (tri_X t xi) = peval P xi) mesh Ps /\
+    rsum (map (fun t => rdot (tri_vols_axi Ns nodes ws t) (map f (map (tri_X t) pts))) mesh)
+    = 2 * PI * rsum (map (fun tP => tri_jac (fst tP) * pint_ref (snd tP)) (combine mesh Ps)).
+Proof. exact lift_mesh_axisymmetric_exact. Qed.
+
 (* NOT PROVED (what remains between the theorems and the implementation's numbers):
      - binary64 rounding inside FunctionSpace / Mesh (the theorems are over exact reals with the certified table errors as
        explicit hypotheses); tied by L1 on the geometric kernels and by L2 with stated head-room;
@@ -344,8 +360,8 @@ Proof. exact lift_mesh_axisymmetric. Qed.
        by C13 (mesh elevation, computed in binary64) and measured per edge in L2; the Lebesgue sums Lam are certified (<= 2,
        C03_lebesgue1_cert_sound); for delta = 0 neither is needed (C03_edge_flux_impl_points_exact_nodes,
        C03_edge_flux_quadrature, C03_divergence_mesh_discrete);
-     - the interpolated nodal field u_q = sum_a N_a(s_q) u_a passed to func on edges is not part of the divergence clause
-       (tested by L2: oint u y n_x ds).
+     - edge integrands that multiply the interpolated nodal field u_q (C03_edge_interpolation) with F(X_q) have no combined
+       theorem (tested by L2: oint u y n_x ds).
    (The premise of C03_divergence_mesh is not assumed: C03_divergence_mesh_create_edges derives it from C13's create_edges
    theorems; its two hypotheses -- no directed pair twice, no degenerate side -- are checked on every L2 mesh, together with
    the decomposition itself on the implementation's create_edges output.) *)
